@@ -848,6 +848,46 @@ func (fx *FuncCtx) execLoop(pre *State, ld *loopDesc) Flow {
 			cands = append(cands, cand{name: o.Name() + ">=-1", eval: func(s *State, it Term) Term { v, _ := getInt(s, o); return Ge(v, IntLit(-1)) }})
 		}
 	}
+	// conditionally updated integers (e.g. "best index so far"): relate them to the counters
+	for _, o := range objs {
+		o := o
+		if _, isInt := intInfo(o.Type()); !isInt || o == ld.hidden {
+			continue
+		}
+		isLin := false
+		for _, l := range lins {
+			if l.obj == o {
+				isLin = true
+			}
+		}
+		if isLin {
+			continue
+		}
+		v0, ok := getInt(pre, o)
+		if !ok {
+			continue
+		}
+		for _, l := range lins {
+			l := l
+			cands = append(cands,
+				cand{name: o.Name() + "<=" + l.obj.Name(), eval: func(s *State, it Term) Term {
+					v, _ := getInt(s, o)
+					c, _ := getInt(s, l.obj)
+					return Le(v, c)
+				}},
+				cand{name: o.Name() + "<=max(" + l.obj.Name() + "-1,v0)", eval: func(s *State, it Term) Term {
+					v, _ := getInt(s, o)
+					c, _ := getInt(s, l.obj)
+					return Le(v, app(SInt, "imax", Sub(c, IntLit(1)), v0))
+				}},
+				cand{name: o.Name() + ">=min(" + l.obj.Name() + "+1,v0)", eval: func(s *State, it Term) Term {
+					v, _ := getInt(s, o)
+					c, _ := getInt(s, l.obj)
+					return Ge(v, app(SInt, "imin", Add(c, IntLit(1)), v0))
+				}},
+			)
+		}
+	}
 	// bounds from the loop condition
 	if ld.cond != nil {
 		for _, cj := range conjuncts(ld.cond) {
